@@ -248,6 +248,18 @@ def audit_assumptions(pid):
     return thms, res, out
 
 
+def coqchk(pid):
+    """independent re-check of Props_<pid>.vo and everything it depends on; returns (ok, summary dict)"""
+    rc, out = sh(f"timeout 1500 coqchk -silent -o -Q theories IoosQc IoosQc.Props_{pid}", cwd=COQ, timeout=1600)
+    summ = {}
+    for key, label in (("axioms", "* Axioms:"), ("type_in_type", "relying on type-in-type:"),
+                       ("unsafe_fix", "relying on unsafe (co)fixpoints:"), ("positivity", "whose positivity is assumed:")):
+        m = re.search(re.escape(label) + r"\s*(.*)", out)
+        summ[key] = m.group(1).strip() if m else "?"
+    ok = rc == 0 and all(v == "<none>" for v in summ.values())
+    return ok, summ, out[-1500:]
+
+
 FORBIDDEN = [
     r"\bAdmitted\b", r"\badmit\b", r"\bAxiom\b", r"\bAxioms\b", r"\bParameter\b", r"\bParameters\b",
     r"\bConjecture\b", r"Admit Obligations", r"Unset Guard", r"bypass_check", r"type-in-type",
